@@ -27,6 +27,8 @@ func main() {
 		cmdShard(os.Args[2:])
 	case "mgr":
 		cmdMgr(os.Args[2:])
+	case "killchild":
+		cmdKillChild(os.Args[2:])
 	default:
 		fmt.Fprintln(os.Stderr, "unknown command", os.Args[1])
 		os.Exit(2)
@@ -35,7 +37,9 @@ func main() {
 
 func cmdShard(args []string) {
 	fs := flag.NewFlagSet("shard", flag.ExitOnError)
-	mode := fs.String("mode", "crud", "crud|filter|rank|cache|graph")
+	mode := fs.String("mode", "crud", "crud|filter|rank|cache|graph|fault")
+	maxFaults := fs.Int("max-faults", 10, "fault points per batch in fault mode (0 = all)")
+	kills := fs.Int("kills", 2, "kill points per batch in fault mode (besides pre/post commit)")
 	cfgName := fs.String("config", "scalars", "configuration name")
 	seed := fs.Int64("seed", 1, "seed")
 	hist := fs.Int("hist", 5, "number of histories")
@@ -87,9 +91,23 @@ func cmdShard(args []string) {
 	case "graph":
 		opts.Graph = true
 		opts.Rank = *rank
+	case "fault":
 	default:
 		fmt.Fprintln(os.Stderr, "unknown mode", *mode)
 		os.Exit(2)
+	}
+	if *mode == "fault" {
+		exe, _ := os.Executable()
+		for h := 0; h < *hist; h++ {
+			r := sd.NewRunner(cfg, *seed*1000+int64(h), tw, *dir)
+			fo := sd.FaultOpts{Batches: *batches, MaxFaults: *maxFaults, Kills: *kills, Exe: exe, Rank: *rank, Sample: *sample}
+			if err := r.RunFaultHistory(h, fo); err != nil {
+				fmt.Fprintln(os.Stderr, "driver error:", err)
+				os.Exit(2)
+			}
+		}
+		fmt.Printf("{\"lines\":%d}\n", tw.N)
+		return
 	}
 	for h := 0; h < *hist; h++ {
 		r := sd.NewRunner(cfg, *seed*1000+int64(h), tw, *dir)
@@ -137,4 +155,25 @@ func cmdMgr(args []string) {
 	tw.Flush()
 	res, _ := json.Marshal(map[string]any{"behaviours": len(bs), "drifted": drifted, "stuck": stuck, "lines": tw.N, "drift_samples": driftSamples})
 	fmt.Println(string(res))
+}
+
+func cmdKillChild(args []string) {
+	fs := flag.NewFlagSet("killchild", flag.ExitOnError)
+	cfgName := fs.String("config", "kitchen", "configuration name")
+	cache := fs.Int64("cache", -1, "shared cache size")
+	db := fs.String("db", "", "database file")
+	batch := fs.String("batch", "", "batch file")
+	killAt := fs.Int64("killat", 0, "kill at the k-th storage operation")
+	killWhen := fs.String("killwhen", "", "pre | post commit")
+	fs.Parse(args)
+	cfg, ok := sd.Configs[*cfgName]
+	if !ok {
+		fmt.Fprintln(os.Stderr, "unknown config", *cfgName)
+		os.Exit(2)
+	}
+	cfg.CacheSize = *cache
+	if err := sd.KillChild(cfg, *db, *batch, *killAt, *killWhen); err != nil {
+		fmt.Fprintln(os.Stderr, "killchild:", err)
+		os.Exit(4)
+	}
 }
